@@ -97,7 +97,7 @@ def gen_histories(rng, n_hist, rounds=1):
                 ops.append(["to_units", rng.choice(VALUES), x, y, rng.random() < 0.6])
             elif r < 0.31:
                 x, y = value_pair()
-                ops.append(["prepare", rng.choice(VALUES), x if rng.random() < 0.8 else None, y])
+                ops.append(["prepare", rng.choice(VALUES), x if rng.random() < 0.8 else None, y] + (["m"] if rng.random() < 0.3 else []))
             elif r < 0.34:
                 x, y = value_pair()
                 pub = None
@@ -105,7 +105,7 @@ def gen_histories(rng, n_hist, rounds=1):
                     # publish with foreign units: mostly of the producer's dimension
                     same = [k for k in range(n) if tb["rows"][k][1] == tb["rows"][x][1]]
                     pub = rng.choice(same) if rng.random() < 0.8 else rng.randrange(n)
-                ops.append(["link", rng.choice(VALUES), x, y, pub])
+                ops.append(["link", rng.choice(VALUES), x, y, pub] + (["m"] if rng.random() < 0.3 else []))
             elif r < 0.35 and h % 2 == 1:
                 ops.append(["clear"])
         hists.append({"ops": ops})
@@ -139,18 +139,23 @@ def run_op(op):
         if kind == "equiv":
             return {"b": bool(fm.data.tools.equivalent_units(names[op[1]], names[op[2]]))}
         v = np.array(op[1][0] / op[1][1])
+        masked = op[-1] == "m"   # gridded payload under metadata with an explicit mask (same numbers expected)
+        grid, ikw = fm.NoGrid(), {}
+        if masked:
+            grid, ikw = fm.UniformGrid((3,)), {"mask": np.array([False, True])}
+            v = np.array([float(v), float(v)])
         if kind == "to_units":
             x, conv = fm.data.tools.to_units(fm.UNITS.Quantity(v, names[op[2]]), names[op[3]],
                                              check_equivalent=op[4], report_conversion=True)
             return _value_ans(x, conv)
         if kind == "prepare":
             data = v if op[2] is None else fm.UNITS.Quantity(v, names[op[2]])
-            x, conv = fm.data.tools.prepare(data, fm.Info(time=None, grid=fm.NoGrid(), units=names[op[3]]),
+            x, conv = fm.data.tools.prepare(data, fm.Info(time=None, grid=grid, units=names[op[3]], **ikw),
                                             report_conversion=True)
             return _value_ans(x, conv)
         if kind == "link":
-            out = fm.Output(name="o", info=fm.Info(time=T(0), grid=fm.NoGrid(), units=names[op[2]]))
-            inp = fm.Input(name="i", info=fm.Info(time=T(0), grid=fm.NoGrid(), units=names[op[3]]))
+            out = fm.Output(name="o", info=fm.Info(time=T(0), grid=grid, units=names[op[2]], **ikw))
+            inp = fm.Input(name="i", info=fm.Info(time=T(0), grid=grid, units=names[op[3]]))
             out >> inp
             inp.ping()
             inp.exchange_info()
